@@ -1041,12 +1041,332 @@ Definition x_block_job_complete (done bytes : N) : bool :=\n  {}.\n", src.path, 
 }
 
 
+// ---------------------------------------------------------------------------
+// effectful loops: `let mut`, one `while`, oracle calls (each consumes the next kernel answer and logs an
+// event), early `return Err`, `continue`, compound assignment, tail `Ok(x)` -> a fuelled Gallina fixpoint
+// ---------------------------------------------------------------------------
+struct Oracle {
+    callee: &'static str,          // function or method name
+    event: &'static str,           // Gallina event; {a0}..{a3} = translated arguments, {l0}..{l3} = bound of a `[..x]` slice argument
+    post: &'static [(&'static str, &'static str)],   // ghost updates after a successful answer v (or after the composite)
+    composite: Option<&'static str>,                 // Some(template) = a modelled library loop returning u_out
+}
+struct EffCfg {
+    fname: &'static str,
+    gname: &'static str,
+    params: &'static [(&'static str, &'static str)],   // rust free variable -> Gallina parameter
+    ghosts: &'static [&'static str],
+    oracles: &'static [Oracle],
+    ignore: &'static [&'static str],                   // statements containing these calls are dropped
+    out: &'static str,                                 // "mkU {st} {ret} {tr} {ans}" / "mkOut {st} {tr} {ans}"
+    trace_ty: &'static str,
+    out_ty: &'static str,
+    ret: &'static str,
+}
+
+fn slice_bound(tr: &mut Tr, e: &Expr) -> Option<String> {
+    let mut e = e;
+    loop {
+        match e {
+            Expr::Reference(r) => e = &r.expr,
+            Expr::Paren(p) => e = &p.expr,
+            Expr::Index(ix) => {
+                if let Expr::Range(r) = &*ix.index {
+                    if r.start.is_none() { if let Some(end) = &r.end { return tr.expr(end).ok(); } }
+                }
+                return None;
+            }
+            _ => return None,
+        }
+    }
+}
+
+fn error_const(e: &Expr) -> R<String> {
+    let t = quote::ToTokens::to_token_stream(e).to_string();
+    if t.contains("Source file ended prematurely") { return Ok("EPREMATURE".into()); }
+    if t.contains("Failed write to file") { return Ok("EWRITESHORT".into()); }
+    Err(format!("unknown error value: {}", t))
+}
+
+struct Eff<'a> { cfg: &'a EffCfg, tr: Tr, muts: Vec<String>, loop_call: String }
+
+impl<'a> Eff<'a> {
+    fn out(&self, st: &str) -> String {
+        self.cfg.out.replace("{st}", st).replace("{ret}", self.cfg.ret).replace("{tr}", "tr").replace("{ans}", "ans")
+    }
+    fn find_oracle(&self, e: &Expr) -> Option<(&'a Oracle, Vec<Expr>)> {
+        let mut e = e;
+        loop { match e { Expr::Try(t) => e = &t.expr, Expr::Cast(c) => e = &c.expr, Expr::Paren(p) => e = &p.expr, _ => break } }
+        match e {
+            Expr::Call(c) => {
+                let n = quote::ToTokens::to_token_stream(&c.func).to_string().replace(' ', "");
+                let last = n.rsplit("::").next().unwrap().to_string();
+                self.cfg.oracles.iter().find(|o| o.callee == last).map(|o| (o, c.args.iter().cloned().collect()))
+            }
+            Expr::MethodCall(m) => {
+                let n = m.method.to_string();
+                self.cfg.oracles.iter().find(|o| o.callee == n).map(|o| (o, m.args.iter().cloned().collect()))
+            }
+            _ => None,
+        }
+    }
+    fn subst(&mut self, template: &str, args: &[Expr]) -> R<String> {
+        let mut t = template.to_string();
+        for (i, a) in args.iter().enumerate() {
+            let key = format!("{{a{}}}", i);
+            if t.contains(&key) { let v = self.tr.expr(a)?; t = t.replace(&key, &v); }
+            let key = format!("{{l{}}}", i);
+            if t.contains(&key) { let v = slice_bound(&mut self.tr, a).ok_or("slice bound not found")?; t = t.replace(&key, &v); }
+        }
+        Ok(t)
+    }
+    fn posts(&mut self, o: &Oracle, args: &[Expr], v: &str) -> R<String> {
+        let mut out = String::new();
+        for (g, t) in o.post {
+            let e = self.subst(t, args)?.replace("{v}", v);
+            write!(out, "let {} := {} in ", g, e).unwrap();
+        }
+        Ok(out)
+    }
+
+    /// translate a statement list; `k` = what follows the list (Gallina term)
+    fn stmts(&mut self, stmts: &[Stmt], k: &str) -> R<String> {
+        if stmts.is_empty() { return Ok(k.to_string()); }
+        let (st, rest) = (&stmts[0], &stmts[1..]);
+        let txt = quote::ToTokens::to_token_stream(st).to_string().replace(' ', "");
+        if self.cfg.ignore.iter().any(|i| txt.contains(i)) || txt.starts_with("debug!") || txt.starts_with("info!") {
+            return self.stmts(rest, k);
+        }
+        match st {
+            Stmt::Local(l) => {
+                let name = pat_ident(&l.pat).ok_or("unsupported let pattern")?;
+                let init = &l.init.as_ref().ok_or("let without initialiser")?.expr;
+                if let Expr::Match(m) = &**init {
+                    if let Some((o, args)) = self.find_oracle(&m.expr) {
+                        return self.oracle_match(o, &args, m, Some(&name), rest, k);
+                    }
+                }
+                if let Some((o, args)) = self.find_oracle(init) {
+                    return self.oracle_try(o, &args, Some(&name), rest, k);
+                }
+                let v = self.tr.expr(init)?;
+                self.tr.bound.insert(name.clone());
+                let tail = self.stmts(rest, k)?;
+                Ok(format!("let {} := {} in\n      {}", name, v, tail))
+            }
+            Stmt::Expr(e, _) => match e {
+                Expr::Binary(b) if matches!(b.op, BinOp::AddAssign(_)) => {
+                    let lhs = flat_name(&b.left).ok_or("unsupported += target")?;
+                    let v = self.tr.expr(&b.right)?;
+                    let tail = self.stmts(rest, k)?;
+                    Ok(format!("let {} := ({} + {}) in\n      {}", lhs, lhs, v, tail))
+                }
+                Expr::If(i) => {
+                    let c = self.tr.expr(&i.cond)?;
+                    // only `if c { return Err(..) }` / `if c { continue }`
+                    let inner = self.stmts(&i.then_branch.stmts, "(* fallthrough *)")?;
+                    if inner.contains("(* fallthrough *)") { return Err("if-branch must end in return/continue".into()); }
+                    if i.else_branch.is_some() { return Err("else branch in effectful code".into()); }
+                    let tail = self.stmts(rest, k)?;
+                    Ok(format!("if {} then {} else\n      {}", c, inner, tail))
+                }
+                Expr::Return(r) => {
+                    let v = r.expr.as_ref().ok_or("return without value")?;
+                    self.ret_value(v)
+                }
+                Expr::Continue(_) => Ok(self.loop_call.clone()),
+                Expr::Try(_) | Expr::MethodCall(_) | Expr::Call(_) => {
+                    if let Some((o, args)) = self.find_oracle(e) { return self.oracle_try(o, &args, None, rest, k); }
+                    if rest.is_empty() { return self.ret_value(e); }
+                    Err(format!("unsupported call statement: {}", txt))
+                }
+                _ => Err(format!("unsupported statement: {}", txt)),
+            },
+            _ => Err("unsupported statement kind".into()),
+        }
+    }
+
+    fn ret_value(&mut self, v: &Expr) -> R<String> {
+        let t = quote::ToTokens::to_token_stream(v).to_string().replace(' ', "");
+        if t.starts_with("Err(") {
+            // Err(e) / Err(e.into()) with e a bound error variable, or a named error
+            if let Expr::Call(c) = v {
+                if let Some(a) = c.args.first() {
+                    let inner = quote::ToTokens::to_token_stream(a).to_string().replace(' ', "");
+                    if inner == "e" || inner == "e.into()" { return Ok(self.out("(StErr e)")); }
+                    let ec = error_const(a)?;
+                    return Ok(self.out(&format!("(StErr {})", ec)));
+                }
+            }
+            return Err("unsupported Err value".into());
+        }
+        if t.starts_with("Ok(") { return Ok(self.out("StOk")); }
+        Err(format!("unsupported return value {}", t))
+    }
+
+    fn consume(&mut self, o: &Oracle, args: &[Expr], on_ok: &str, on_err: &str) -> R<String> {
+        let ev = self.subst(o.event, args)?;
+        Ok(format!("match ans with\n      | [] => {stuck}\n      | a :: ans =>\n      let tr := tr ++ [({ev}, a)] in\n      match a with\n      | XOk v =>\n      {ok}\n      | XErr e =>\n      {err}\n      end end",
+                   stuck = self.out("StStuck").replace(" ans)", " [])"), ev = ev, ok = on_ok, err = on_err))
+    }
+
+    fn oracle_try(&mut self, o: &'a Oracle, args: &[Expr], bind: Option<&str>, rest: &[Stmt], k: &str) -> R<String> {
+        if let Some(comp) = o.composite {
+            // a modelled library loop: run it, splice its trace and remaining answers
+            let call = self.subst(comp, args)?;
+            let posts = self.posts(o, args, "0")?;
+            let tail = self.stmts(rest, k)?;
+            let fail = self.cfg.out.replace("{st}", "st").replace("{ret}", self.cfg.ret).replace("{tr}", "(tr ++ u_trace w)").replace("{ans}", "(u_rest w)");
+            return Ok(format!("let w := {} in\n      match u_st w with\n      | StOk => let tr := tr ++ u_trace w in let ans := u_rest w in {}\n      {}\n      | st => {}\n      end", call, posts, tail, fail));
+        }
+        let posts = self.posts(o, args, "v")?;
+        if let Some(b) = bind { self.tr.bound.insert(b.to_string()); }
+        let tail = self.stmts(rest, k)?;
+        let ok = format!("{}{}{}", match bind { Some(b) => format!("let {} := v in ", b), None => String::new() }, posts, tail);
+        let err = self.out("(StErr e)");
+        self.consume(o, args, &ok, &err)
+    }
+
+    fn oracle_match(&mut self, o: &'a Oracle, args: &[Expr], m: &ExprMatch, bind: Option<&str>, rest: &[Stmt], k: &str) -> R<String> {
+        // arms in order; Ok(..) arms become a chain of tests on v, Err(..) arms a chain on e
+        let mut ok_arms: Vec<(String, String)> = vec![];   // (condition or "", body)
+        let mut err_arms: Vec<(String, String)> = vec![];
+        if let Some(b) = bind { self.tr.bound.insert(b.to_string()); }
+        let posts = self.posts(o, args, "v")?;
+        let tail = self.stmts(rest, k)?;
+        for arm in &m.arms {
+            let p = quote::ToTokens::to_token_stream(&arm.pat).to_string().replace(' ', "");
+            let is_ok = p.starts_with("Ok(");
+            let inner = p.trim_start_matches("Ok(").trim_start_matches("Err(").trim_end_matches(')').trim_start_matches("ref").to_string();
+            let mut cond = String::new();
+            if is_ok && inner.chars().all(|c| c.is_ascii_digit()) { cond = format!("(v =? {})", inner); }
+            if let Some((_, g)) = &arm.guard {
+                let gt = quote::ToTokens::to_token_stream(g).to_string().replace(' ', "");
+                if gt.contains("ErrorKind::Interrupted") { cond = "(e =? EINTR)".to_string(); }
+                else {
+                    // guard over the bound value: rename the binder to v
+                    let mut t2 = Tr::new(); t2.bound = self.tr.bound.clone(); t2.bound.insert(inner.clone());
+                    let c = t2.expr(g)?;
+                    cond = c.replace(&format!("({} ", inner), "(v ").replace(&format!(" {})", inner), " v)");
+                    for f in t2.free { self.tr.free.insert(f); }
+                }
+            }
+            // body
+            let body = match &*arm.body {
+                Expr::Return(r) => self.ret_value(r.expr.as_ref().ok_or("return without value")?)?,
+                Expr::Continue(_) => self.loop_call.clone(),
+                Expr::Block(b) if b.block.stmts.len() == 1 => match &b.block.stmts[0] {
+                    Stmt::Expr(Expr::Return(r), _) => self.ret_value(r.expr.as_ref().ok_or("return without value")?)?,
+                    _ => return Err("unsupported arm block".into()),
+                },
+                Expr::Path(pth) if is_ok && pth.path.is_ident(&inner) => {
+                    format!("{}{}{}", match bind { Some(b) => format!("let {} := v in ", b), None => String::new() }, posts, tail)
+                }
+                _ => return Err(format!("unsupported arm body in match on {}", o.callee)),
+            };
+            if is_ok { ok_arms.push((cond, body)); } else { err_arms.push((cond, body)); }
+        }
+        let chain = |arms: &Vec<(String, String)>| -> R<String> {
+            let mut out = String::new();
+            let mut closed = false;
+            for (c, b) in arms {
+                if c.is_empty() { write!(out, "{}", b).unwrap(); closed = true; break; }
+                write!(out, "if {} then {} else\n      ", c, b).unwrap();
+            }
+            if !closed { return Err("match arms do not end in a catch-all".into()); }
+            Ok(out)
+        };
+        let ok = chain(&ok_arms)?;
+        let err = chain(&err_arms)?;
+        self.consume(o, args, &ok, &err)
+    }
+}
+
+fn eff_function(src: &Src, cfg: &EffCfg) -> R<String> {
+    let (_, block) = find_fn(src, cfg.fname)?;
+    // prelude: `let mut x = init;` (and ignored lets) ... one `while` ... tail expression
+    let mut muts: Vec<(String, String)> = vec![];
+    let mut tr = Tr::new();
+    for (r, _) in cfg.params { tr.bound.insert(r.to_string()); }
+    let mut wl: Option<syn::ExprWhile> = None;
+    let mut tail: Option<Expr> = None;
+    for st in &block.stmts {
+        match st {
+            Stmt::Local(l) => {
+                let t = quote::ToTokens::to_token_stream(st).to_string().replace(' ', "");
+                if t.contains("vec![") { continue; }      // the byte buffer: contents are not modelled
+                if let Pat::Ident(pi) = strip_type(&l.pat) {
+                    let init = &l.init.as_ref().ok_or("let without init")?.expr;
+                    muts.push((pi.ident.to_string(), tr.expr(init)?));
+                    continue;
+                }
+                return Err("unsupported prelude let".into());
+            }
+            Stmt::Expr(Expr::While(w), _) => wl = Some(w.clone()),
+            Stmt::Expr(e, None) => tail = Some(e.clone()),
+            _ => return Err(format!("{}: unsupported top-level statement", cfg.fname)),
+        }
+    }
+    let wl = wl.ok_or(format!("{}: no while loop", cfg.fname))?;
+    let tail = tail.ok_or(format!("{}: no tail expression", cfg.fname))?;
+    let mut_names: Vec<String> = muts.iter().map(|m| m.0.clone()).collect();
+    for m in &mut_names { tr.bound.insert(m.clone()); }
+    for g in cfg.ghosts { tr.bound.insert(g.to_string()); }
+    let pnames: Vec<String> = cfg.params.iter().map(|p| p.1.to_string()).collect();
+    let loop_name = format!("{}_loop", cfg.gname);
+    let loop_call = format!("{} fuel {} {} {} tr ans", loop_name, pnames.join(" "), mut_names.join(" "), cfg.ghosts.join(" "));
+    let mut eff = Eff { cfg, tr, muts: mut_names.clone(), loop_call: loop_call.clone() };
+    let cond = eff.tr.expr(&wl.cond)?;
+    let body = eff.stmts(&wl.body.stmts, &loop_call)?;
+    let after = eff.ret_value(&tail)?;
+    let _ = &eff.muts;
+    // rename rust parameter names to the Gallina ones
+    let mut text = format!("Fixpoint {ln} (fuel : nat) ({ps} {ms} {gs} : N) (tr : {tt}) (ans : list xans) {{struct fuel}} : {ot} :=\n  if {c} then\n    match fuel with\n    | O => {oof}\n    | S fuel =>\n      {b}\n    end\n  else {a}.\n",
+        ln = loop_name, ps = pnames.join(" "), ms = mut_names.join(" "), gs = cfg.ghosts.join(" "), tt = cfg.trace_ty, ot = cfg.out_ty,
+        c = cond, oof = eff.out("StOutOfFuel"), b = body, a = after);
+    for (r, g) in cfg.params { if r != g { text = text.replace(&format!("{} ", r), &format!("{} ", g)).replace(&format!("{})", r), &format!("{})", g)); } }
+    let inits: Vec<String> = muts.iter().map(|m| m.1.clone()).collect();
+    let mut out = String::new();
+    writeln!(out, "(* {}:{}  fn {}, translated: the `while` becomes a fuelled fixpoint over the loop-carried variables, every kernel call\n   consumes the next answer and appends one event to the trace, `return Err`/`?`/`continue` end or restart the iteration *)",
+             src.path, block.span().start().line, cfg.fname).unwrap();
+    out.push_str(&text);
+    writeln!(out, "Definition {g} (fuel : nat) ({ps} {gs} : N) (ans : list xans) : {ot} :=\n  {ln} fuel {ps} {inits} {gs} [] ans.\n",
+             g = cfg.gname, ps = pnames.join(" "), gs = cfg.ghosts.join(" "), ot = cfg.out_ty, ln = loop_name, inits = inits.join(" ")).unwrap();
+    Ok(out)
+}
+
+const EFF_RANGE: EffCfg = EffCfg {
+    fname: "copy_range_uspace", gname: "x_copy_range_uspace", params: &[("nbytes", "nbytes"), ("off", "off")], ghosts: &[],
+    oracles: &[
+        Oracle { callee: "read_bytes", event: "URead {a2} {l1}", post: &[], composite: None },
+        Oracle { callee: "write_bytes", event: "UWrite {a2} {a2} {l1}", post: &[], composite: None },
+    ],
+    ignore: &[], out: "mkU {st} {ret} {tr} {ans}", trace_ty: "utrace", out_ty: "u_out", ret: "written",
+};
+const EFF_BYTES: EffCfg = EffCfg {
+    fname: "copy_bytes_uspace", gname: "x_copy_bytes_uspace", params: &[("nbytes", "nbytes")], ghosts: &["rpos", "wpos"],
+    oracles: &[
+        Oracle { callee: "read", event: "URead rpos {l0}", post: &[], composite: None },
+        Oracle { callee: "write_all", event: "", post: &[("rpos", "(rpos + {l0})"), ("wpos", "(wpos + {l0})")],
+                 composite: Some("write_all (S (List.length ans)) rpos wpos {l0} ans") },
+    ],
+    ignore: &[], out: "mkU {st} {ret} {tr} {ans}", trace_ty: "utrace", out_ty: "u_out", ret: "written",
+};
+const EFF_COPY_BYTES: EffCfg = EffCfg {
+    fname: "copy_bytes", gname: "x_copy_bytes", params: &[("len", "len"), ("bsize", "bsize")], ghosts: &["cur"],
+    oracles: &[
+        Oracle { callee: "copy_file_bytes", event: "mkReq cur cur {a2}", post: &[("cur", "(cur + {v})")], composite: None },
+    ],
+    ignore: &["updates.send("], out: "mkOut {st} {tr} {ans}", trace_ty: "xtrace", out_ty: "loop_out", ret: "written",
+};
+
+
 fn main() {
     let root = std::env::args().nth(1).unwrap_or_else(|| "/repo".to_string());
     let root = Path::new(&root);
     let mut out = String::new();
     out.push_str("(* Extracted.v — GENERATED by /verif/xlate from the current source of the repository on every run.\n   Do not edit.  See xlate/src/main.rs for the supported Rust subset; coq/proofs/ExtractedOk.v proves that\n   every definition below equals the hand-written model's. *)\n");
-    out.push_str("From XcpModel Require Import Base Extents.\nFrom Coq Require Import String.\nLocal Open Scope string_scope.\nLocal Open Scope N_scope.\nLocal Open Scope list_scope.\n\n");
+    out.push_str("From XcpModel Require Import Base Extents CopyLoop Uspace.\nFrom Coq Require Import String.\nLocal Open Scope string_scope.\nLocal Open Scope N_scope.\nLocal Open Scope list_scope.\n\n");
     let mut failures = vec![];
     let mut emit = |label: &str, r: R<String>, out: &mut String| match r {
         Ok(s) => { out.push_str(&s); out.push('\n'); }
@@ -1054,7 +1374,11 @@ fn main() {
     };
 
     match load(root, "libfs/src/common.rs") {
-        Ok(src) => emit("merge_extents", merge_extents(&src), &mut out),
+        Ok(src) => {
+            emit("merge_extents", merge_extents(&src), &mut out);
+            emit("copy_range_uspace", eff_function(&src, &EFF_RANGE), &mut out);
+            emit("copy_bytes_uspace", eff_function(&src, &EFF_BYTES), &mut out);
+        }
         Err(e) => emit("libfs/src/common.rs", Err(e), &mut out),
     }
     match load(root, "libxcp/src/drivers/parblock.rs") {
@@ -1107,6 +1431,7 @@ fn main() {
                 &[("try_reflink", 4), ("probably_sparse", 30), ("copy_sparse", 31), ("copy_bytes", 32)],
                 "the steps of CopyHandle::copy_file (4 clone attempt, 30 sparseness test, 31 sparse walk, 32 plain loop)"), &mut out);
             emit("copy_bytes", copy_bytes_loop(&src), &mut out);
+            emit("copy_bytes (loop)", eff_function(&src, &EFF_COPY_BYTES), &mut out);
             emit("finalise_copy", finalise_order(&src).map(|(v, l)| {
                 let items: Vec<String> = v.iter().map(|(c, n)| format!("({}, {})", c, n)).collect();
                 format!("(* {}:{}  finalise_copy: (step, guard negated) in program order; 6 owner, 8 xattrs+permissions, 9 timestamps, 10 fsync *)\nDefinition x_finalise_order : list (N * bool) := [{}].\n",
